@@ -49,34 +49,10 @@ fn bc_section_entries() {
     kani::cover!(!accepted);
 }
 
-// Header: decode of an arbitrary short byte string (no section table entries) is a value or an
-// error -- never a panic -- and is accepted only with the right magic / version / header geometry.
-// @unit id=bc.decode.header props=C11 tier=quick kind=bounded bound="<= 28 arbitrary bytes, section_count = 0, CRC flag clear" timeout=1200 fn=BytecodeModule::decode
-#[kani::proof]
-#[kani::unwind(6)]
-fn bc_decode_header() {
-    let data: [u8; 28] = kani::any();
-    let dlen: usize = kani::any();
-    kani::assume(dlen <= 28);
-    // flags bit 0 (CRC) clear; section_count == 0
-    kani::assume(data[8] & 1 == 0);
-    kani::assume(data[14] == 0 && data[15] == 0);
-    let r = BytecodeModule::decode(&data[..dlen]);
-    let accepted = r.is_ok();
-    let table_off = u32::from_le_bytes([data[16], data[17], data[18], data[19]]) as usize;
-    if accepted {
-        assert!(dlen >= 24 && &data[0..4] == b"STBC", "only the STBC magic is accepted");
-        assert!(u16::from_le_bytes([data[12], data[13]]) >= 24, "header size field covers the header");
-        assert!(table_off >= 24 && table_off % 4 == 0 && table_off <= dlen, "section table lies inside the file, aligned, after the header");
-    }
-    kani::cover!(accepted);
-    kani::cover!(!accepted && dlen >= 24);
-    std::mem::forget(r);
-}
+// BytecodeModule::decode on <= 28 arbitrary header bytes did not finish within 15 minutes (the error
+// constructors and the section loop dominate); the header geometry is not claimed. The framing
+// obligation is carried by bc.section_entries above and the reader contracts.
 
-// Hostile counts: a section payload that consists of nothing but a leading u32 count (full domain)
-// must decode to an error -- the payload cannot hold a single entry -- WITHOUT requesting memory
-// that is not proportional to the 4-byte input.
 /// Allocation obligation: the decoders' `Vec::with_capacity(n)` requests are replaced (Kani stub)
 /// by this checked version: a request for more elements than the input has bytes is a failed check.
 pub(crate) const ALLOC_LIMIT: usize = 16;
